@@ -106,37 +106,7 @@ def check_visitor(ctx, lib):
             ok = ms(vec, Call("std::vec::Vec::<T>::new")) and ms(val, Call("serde::de::SeqAccess::next_element", Each(P2))) and \
                 ms(okt[0], Agg(VAR + "::Array", Each(Call("std::vec::Vec::<T>::new")))) and unconditional_add(b, o, nx[0], pushes[0])
         if not ok and not pushes and len(nx) == 0:
-            # pull form: from_fn(|| seq.next_element().transpose()).collect::<Result<Vec<_>, _>>() — from_fn yields until the
-            # closure answers None, transpose turns Ok(None) into that None and Ok(Some(x)) / Err(e) into items, and collecting
-            # into Result stops at the first Err: every element, in arrival order, first error returned
-            from ..analysis import strip_through
-            allr = set().union(*okt) if okt else set()
-            good = bool(allr) and not tails
-            for t in allr:
-                if not (t[0] == "agg" and t[1] == VAR + "::Array" and len(t[2]) == 1):
-                    good = False
-                    continue
-                for c in t[2][0]:
-                    c = strip_through(c)
-                    if not (c[0] == "call" and c[1] == "std::iter::Iterator::collect" and len(c[2]) == 1):
-                        good = False
-                        continue
-                    for ff in c[2][0]:
-                        if not (ff[0] == "call" and ff[1] == "std::iter::from_fn" and len(ff[2]) == 1 and len(ff[2][0]) == 1):
-                            good = False
-                            continue
-                        clo = next(iter(ff[2][0]))
-                        cb = lib.fn(clo[1]) if clo[0] == "closure" else None
-                        if cb is None or len(clo[2]) != 1 or set(clo[2][0]) != {P2}:
-                            good = False
-                            continue
-                        r = Origins(cb, lib).of_local(0)
-                        good = good and bool(r) and all(
-                            x[0] == "call" and x[1].endswith("::transpose") and len(x[2]) == 1 and x[2][0] and
-                            all(y[0] == "call" and y[1] == "serde::de::SeqAccess::next_element" and
-                                set(y[2][0]) == {("field", ("closure_env",), "0")} for y in x[2][0]) for x in r)
-                        good = good and [tt["callee"] for _, tt in cb.calls() if not tt["callee"].endswith("::transpose")] == ["serde::de::SeqAccess::next_element"]
-            ok = good
+            ok = pull_form(lib, b, okt, tails, "Array", "serde::de::SeqAccess::next_element")
         row("visit_seq", ok, "every next_element is pushed, in arrival order, nothing dropped; the result is that Array")
     b = found.get("visit_map")
     if b is not None:
@@ -149,6 +119,10 @@ def check_visitor(ctx, lib):
             ent = Call("serde::de::MapAccess::next_entry", Each(P2))
             ok = ms(a[0], Call(r"BTreeMap::<K, V>::new$", regex=True)) and ms(a[1], ("field", ent, "0")) and ms(a[2], ("field", ent, "1")) and \
                 ms(okt[0], Agg(VAR + "::Object", Each(Call(r"BTreeMap::<K, V>::new$", regex=True)))) and unconditional_add(b, o, nx[0], ins[0])
+        if not ok and not ins and len(nx) == 0:
+            # the same pull form collected into Result<BTreeMap<..>, _>: FromIterator for BTreeMap inserts the pairs in arrival
+            # order, a later duplicate key overwriting the earlier one — what the explicit insert loop does
+            ok = pull_form(lib, b, okt, tails, "Object", "serde::de::MapAccess::next_entry")
         row("visit_map", ok, "every entry is inserted under its own key into an ordered map (a later duplicate overwrites); the result is that Object")
     ctx.floor(rule, n, 12, "visitor rows")
     d = ctx.fn("<variable::Variable as serde::Deserialize<'de>>::deserialize", rule=rule)
@@ -157,6 +131,40 @@ def check_visitor(ctx, lib):
         ok = len(calls) == 1 and calls[0]["callee"] == "serde::Deserializer::deserialize_any"
         ctx.check(ok, rule, "entry", "Variable::deserialize = deserializer.deserialize_any(VariableVisitor)", d.span)
     check_from_json(ctx, lib, rule)
+
+
+def pull_form(lib, b, okt, tails, variant, accessor):
+    """from_fn(|| access.next_x().transpose()).collect::<Result<C, _>>() wrapped in Variable::<variant>: from_fn yields until the
+    closure answers None, transpose turns Ok(None) into that None and Ok(Some(x)) / Err(e) into items, and collecting into Result
+    stops at the first Err — every item, in arrival order, first error returned."""
+    from ..analysis import strip_through
+    allr = set().union(*okt) if okt else set()
+    good = bool(allr) and not tails
+    for t in allr:
+        if not (t[0] == "agg" and t[1] == VAR + "::" + variant and len(t[2]) == 1):
+            good = False
+            continue
+        for c in t[2][0]:
+            c = strip_through(c)
+            if not (c[0] == "call" and c[1] == "std::iter::Iterator::collect" and len(c[2]) == 1):
+                good = False
+                continue
+            for ff in c[2][0]:
+                if not (ff[0] == "call" and ff[1] == "std::iter::from_fn" and len(ff[2]) == 1 and len(ff[2][0]) == 1):
+                    good = False
+                    continue
+                clo = next(iter(ff[2][0]))
+                cb = lib.fn(clo[1]) if clo[0] == "closure" else None
+                if cb is None or len(clo[2]) != 1 or set(clo[2][0]) != {P2}:
+                    good = False
+                    continue
+                r = Origins(cb, lib).of_local(0)
+                good = good and bool(r) and all(
+                    x[0] == "call" and x[1].endswith("::transpose") and len(x[2]) == 1 and x[2][0] and
+                    all(y[0] == "call" and y[1] == accessor and
+                        set(y[2][0]) == {("field", ("closure_env",), "0")} for y in x[2][0]) for x in r)
+                good = good and [tt["callee"] for _, tt in cb.calls() if not tt["callee"].endswith("::transpose")] == [accessor]
+    return good
 
 
 def check_from_json(ctx, lib, rule):
